@@ -380,7 +380,9 @@ impl Bitstr {
     }
 
     pub fn detach(self) -> Bitstr {
-        if Rc::strong_count(&self.data) == 1 {
+        // a value that does not start at bit 0 of its buffer is rebuilt even when the buffer
+        // is uniquely owned: where the result starts must not depend on who else holds the buffer
+        if Rc::strong_count(&self.data) == 1 && self.range.start == 0 {
             self
         } else if self.len() == 0 {
             Bitstr::new()
